@@ -210,6 +210,23 @@ def nx_graph(adj):
     return g
 
 
+def nx_sp_table(g, order):
+    """networkx's own breadth-first searches on `g` (the two routines the s-centralities delegate to use exactly these):
+    per source per vertex `<distance>.<number of shortest paths>` or `x` - the wire form of the driver command `sp`.
+    Distances from `nx.single_source_shortest_path_length` (closeness), path counts from the Brandes search of
+    `nx.betweenness_centrality`; both must tell the same distances."""
+    import networkx as nx
+    from networkx.algorithms.centrality.betweenness import _single_source_shortest_path_basic
+    rows = []
+    for src in order:
+        d1 = dict(nx.single_source_shortest_path_length(g, src))
+        _, _, sigma, d2 = _single_source_shortest_path_basic(g, src)
+        if d1 != dict(d2):
+            return None
+        rows.append(",".join(f"{d1[v]}.{int(sigma[v])}" if v in d1 and float(sigma[v]) == int(sigma[v]) else "x" for v in order) or "-")
+    return ";".join(rows) or "-"
+
+
 def stub_cent(G, *a, **k):
     """the arbitrary `cent` also implemented in lean/Hgxv/Model/C20Cent.lean (`stubCent`)"""
     m = G.number_of_edges()
@@ -1270,8 +1287,9 @@ def check_static_obj(ctx, drv, case, h, nodes, edges, rank, vals, s_order=(1, 2,
                 if not close(ref[i], refnx[i]):
                     ctx.disagree({**case, "s": s}, f"reference drift: own {name} {ref[i]} vs networkx {refnx[i]} on the own line graph")
             impl[(cname, s)] = d
+            impl[("ref" + cname, s)] = {e: ref[i] for i, e in enumerate(edges)}
             lines.append(f"se {cname} {s}")
-            checks.append(("items", (cname, s), lambda k: ekey(rank, k), False))
+            checks.append(("items", (cname, s), lambda k: ekey(rank, k), False, ("ref" + cname, s)))
         if light:
             continue
         lg = guard(line_graph, h, s=s)
@@ -1294,6 +1312,14 @@ def check_static_obj(ctx, drv, case, h, nodes, edges, rank, vals, s_order=(1, 2,
                 checks.append(("line", want))
                 if sorted(g.nodes) != list(range(len(edges))):
                     ctx.violation({**case, "s": s}, f"line_graph vertices {sorted(g.nodes)} are not one per hyperedge")
+                elif len(edges) <= 12:
+                    # the breadth-first searches of networkx on the graph the CODE built vs `distSigma (levels ..)` of the model
+                    # (theorem C20_dist_spec speaks about exactly these): distances and shortest-path counts, exact integers
+                    want_sp = nx_sp_table(g, list(range(len(edges))))
+                    if want_sp is not None:
+                        lines.append(f"sp {s}")
+                        checks.append(("sp", want_sp))
+                        ctx.count("sp_tables_compared")
             except Exception as e:  # noqa: BLE001
                 ctx.disagree({**case, "s": s}, f"line_graph(h, s={s}) returned something that is not (graph, id table 0..m-1): {type(e).__name__}: {e}")
         with StubNx():
@@ -1319,8 +1345,10 @@ def check_static_obj(ctx, drv, case, h, nodes, edges, rank, vals, s_order=(1, 2,
         d = check_dict(ctx, case, f"{name}(H)", guard(fn, h), nodes, {x: ref[("n", x)] for x in nodes},
                        {x: refnx[("n", x)] for x in nodes}, vals, "node")
         impl[(cname, "n")] = d
+        if all(x in set(nodes) for e in edges for x in e):
+            impl[("ref" + cname, "n")] = {x: ref[("n", x)] for x in nodes}
         lines.append(f"sn {cname}")
-        checks.append(("items", (cname, "n"), lambda k: "n" + str(rank[k]), False))
+        checks.append(("items", (cname, "n"), lambda k: "n" + str(rank[k]), False, ("ref" + cname, "n")))
     with StubNx():
         for name, fn in ((("s_betweenness_nodes", sc.s_betweenness_nodes), ("s_closeness_nodes", sc.s_closeness_nodes))
                          if "nodes" in parts and not light else ()):
@@ -1339,6 +1367,12 @@ def check_static_obj(ctx, drv, case, h, nodes, edges, rank, vals, s_order=(1, 2,
                 + " " + (",".join(sorted(f"{k}={obj(o)}" for k, o in tab.items())) or "-")
             lines.append("bip")
             checks.append(("bip", want))
+            if len(g.nodes) <= 12:
+                want_sp = nx_sp_table(g, list(g.nodes))
+                if want_sp is not None:
+                    lines.append("sp n")
+                    checks.append(("sp", want_sp))
+                    ctx.count("sp_tables_compared")
         except Exception as e:  # noqa: BLE001
             ctx.disagree(case, f"bipartite_projection returned something that is not (graph, id table over the nodes / hyperedges): {type(e).__name__}: {e}")
 
@@ -1375,6 +1409,17 @@ def run_model(ctx, drv, case, lines, checks, impl):
                 ctx.disagree({**case, "line": ln}, str(r))
         elif ck[0] == "items":
             compare_items(ctx, case, ln, a, impl.get(ck[1]), ck[2], ck[3])
+            if len(ck) > 4 and impl.get(ck[4]) is not None:
+                # the model's exact rational vs the exact Brandes / BFS reference of the property oracle: EQUAL, not close
+                m = parse_items(a)
+                if m is not None and "dup" not in m:
+                    for k, v in impl[ck[4]].items():
+                        if m.get(ck[2](k)) != v:
+                            ctx.disagree({**case, "line": ln}, f"{ln!r}: model value {m.get(ck[2](k))} of {k!r} is not the exact reference value {v} "
+                                                               f"(own Brandes / BFS in rationals)")
+                            break
+                    else:
+                        ctx.count("exact_rational_tables_equal")
         else:
             if ck[0] == "bip":
                 parts = a.split(" ")
